@@ -13,7 +13,7 @@ import (
 
 func init() {
 	register(&Rule{ID: "LK1", Min: 6, Run: ruleLK1,
-		Doc: "lock-primitive typestate: in the function that acquires flock and invokes its callback parameter: (a) exactly one acquiring Flock whose op is param|LOCK_NB; (b) EWOULDBLOCK/EAGAIN maps to ErrLockBusy and the callback is unreachable from the Flock-error edge; (c) the callback call is dominated by the Flock-success edge on the fd opened from the path parameter; (d) no non-deferred unlock/close between acquire and callback; (e) a missing lock file is recreated by a non-destructive creator and re-opened; (f) the callback's error is the function's result"})
+		Doc: "lock-primitive typestate: in the function that acquires flock and invokes its callback parameter: (a) exactly one acquiring Flock whose op is param|LOCK_NB; (b) EWOULDBLOCK/EAGAIN maps to ErrLockBusy and the callback is unreachable from the Flock-error edge; (c) the callback call is dominated by the Flock-success edge on the fd opened from the path parameter; (d) no non-deferred unlock/close between acquire and callback; (e) a missing lock file is recreated by a non-destructive creator and re-opened (or created and opened in one step by os.OpenFile with O_CREATE and no O_TRUNC); (f) the callback's error is the function's result; (g) the lock file is never removed, truncated or renamed over. The descriptor may also be int(file.Fd()) of an *os.File opened from the path parameter, provided Fd() is taken in the primitive itself and the file object is still used after the callback (a deferred Close, a KeepAlive): a file object that becomes unreachable is finalized at the next garbage collection, its descriptor closed and the flock released in the middle of the critical section"})
 	register(&Rule{ID: "LK2", Min: 3, Run: ruleLK2,
 		Doc: "lock-call-args: every call of the lock primitive passes the constant LOCK_EX, a path that is filepath.Join(D,\"lock\"), and every loader/commit call inside its callback works on the log chosen for the same directory D"})
 	register(&Rule{ID: "LK3", Min: 2, Run: ruleLK3,
@@ -220,8 +220,87 @@ func ruleLK1(c *Ctx) {
 	if u, ok := fdArg.(*ssa.UnOp); ok && u.Op == token.MUL {
 		fdCell = cellOf(u.X)
 	}
+	// the opens the descriptor comes from (for (e): a create-open recreates a missing lock file in the same step)
+	var lockOpens []*ssa.Call
 	var checkOpenIn func(v ssa.Value, pathOK func(ssa.Value) bool, depth int)
+	// fileOrigin: an *os.File handed back by os.OpenFile/os.Open(path) directly or by a helper every success return of
+	// which does that with its own path parameter
+	var fileOrigin func(v ssa.Value, pathOK func(ssa.Value) bool, depth int) bool
+	fileOrigin = func(v ssa.Value, pathOK func(ssa.Value) bool, depth int) bool {
+		call, _ := callOf(resolve(v))
+		if call == nil {
+			return false
+		}
+		switch calleeFullName(&call.Call) {
+		case "os.OpenFile", "os.Open":
+			if !pathOK(call.Call.Args[0]) {
+				return false
+			}
+			lockOpens = append(lockOpens, call)
+			return true
+		}
+		h := calleeOf(&call.Call)
+		if h == nil || !c.InModule(h) || h.Blocks == nil || depth > 1 || len(call.Call.Args) == 0 || !pathOK(call.Call.Args[0]) {
+			return false
+		}
+		n := 0
+		for _, r := range c.nonFailingReturns(h) {
+			if len(r.Results) < 1 {
+				continue
+			}
+			n++
+			vals := []ssa.Value{returnedValue(r, 0)}
+			if ph, ok := vals[0].(*ssa.Phi); ok {
+				vals = ph.Edges
+			}
+			for _, x := range vals {
+				if !fileOrigin(x, func(pv ssa.Value) bool {
+					prm, ok := resolve(pv).(*ssa.Parameter)
+					return ok && prm.Parent() == h && paramIndex(prm) == 0
+				}, depth+1) {
+					return false
+				}
+			}
+		}
+		return n > 0
+	}
 	checkOpenIn = func(v ssa.Value, pathOK func(ssa.Value) bool, depth int) {
+		// int(file.Fd()): the descriptor of an *os.File. It is the file object that owns it: when the object becomes
+		// unreachable its finalizer closes the descriptor at the next garbage collection, and closing the only descriptor
+		// of the open file description drops the flock - in the middle of the critical section
+		sv := strip(v)
+		if cv, ok := sv.(*ssa.Convert); ok {
+			sv = strip(cv.X)
+		}
+		if fdc, ok := sv.(*ssa.Call); ok && calleeFullName(&fdc.Call) == "(*os.File).Fd" {
+			file := fdc.Call.Args[0]
+			if !fileOrigin(file, pathOK, depth) {
+				fdOK, fdWhy = false, "the lock descriptor is the Fd() of a file not opened from the path parameter"
+				return
+			}
+			if fdc.Parent() != lp {
+				fdOK, fdWhy = false, "the lock descriptor is taken with Fd() from an *os.File inside "+c.Name(fdc.Parent())+" and only the integer is handed back: the file object is unreachable from then on, its finalizer closes the descriptor at the next garbage collection and the flock is released in the middle of the critical section"
+				return
+			}
+			alive := false
+			for _, u := range handleUsers(resolve(file)) {
+				switch {
+				case u == ssa.Instruction(fdc):
+				case u.Parent() == lp:
+					if _, isDefer := u.(*ssa.Defer); isDefer {
+						alive = true // e.g. defer file.Close(): the defer record keeps the object reachable until lp returns
+					} else if u.Block() != nil && reach(cb.Block(), nil, nil)[u.Block()] && (u.Block() != cb.Block() || instrIndex(u) > instrIndex(cb)) {
+						alive = true
+					}
+				case u.Parent() != nil && u.Parent().Parent() == lp:
+					alive = true // used by a closure of lp (a deferred clean-up)
+				}
+			}
+			if !alive {
+				fdOK, fdWhy = false, "the *os.File owning the lock descriptor is not used after the callback (no deferred Close, no KeepAlive): once unreachable its finalizer closes the descriptor at the next garbage collection and the flock is released in the middle of the critical section"
+			}
+			return
+		}
 		call, idx := callOf(v)
 		if call == nil || idx != 0 {
 			fdOK, fdWhy = false, "fd is not the result of syscall.Open"
@@ -290,6 +369,13 @@ func ruleLK1(c *Ctx) {
 		}
 		n := calleeFullName(call.Common())
 		isRelease := n == "syscall.Close"
+		if n == "(*os.File).Close" {
+			for _, oc := range lockOpens {
+				if fv, _ := callOf(resolve(call.Common().Args[0])); fv == oc {
+					isRelease = true
+				}
+			}
+		}
 		if n == "syscall.Flock" {
 			if op, ok := constInt(call.Common().Args[1]); ok && op == LOCK_UN {
 				isRelease = true
@@ -346,6 +432,12 @@ func ruleLK1(c *Ctx) {
 					reopen = true
 				}
 			}
+		}
+	}
+	for _, oc := range lockOpens {
+		// os.OpenFile(path, O_RDONLY|O_CREATE, mode): created when missing and opened in one step, never truncated
+		if e := c.F.byCall[oc]; e != nil && e.Class == "create-open" {
+			recreated, reopen = true, true
 		}
 	}
 	c.check(recreated && reopen, name, "e:recreate-missing-lockfile", c.FnPos(lp),
